@@ -578,34 +578,39 @@ def memo_leg(chk):
     import os
     from bcverif.runner import _validate_shard
 
+    # (the control needs objects that follow the machine: under model drift there is nothing to corrupt)
     ctl, want, nobj = [], [], 0
-    for e in evs:
-        if e[0] == "new":
-            nobj += 1
-            if nobj > 12:
-                break
-            k = 0
-        e2 = copy.deepcopy(e)
-        if e[0] == "call":
-            k += 1
-            if k == 3:
-                e2[4][(nobj * 3) % 8][1] += 1
-                want.append(len(ctl) + 1)
-        ctl.append(e2)
-    cpath = os.path.join(chk.dir, "traces", "MemoTrace_fidelity_control.ndjson")
-    with open(cpath, "w") as f:
-        for e in ctl:
-            f.write(json.dumps(e, separators=(",", ":")) + "\n")
-    res = _validate_shard((chk.dir, "MemoTrace", cpath, len(ctl), None, 600, "MemoTrace.cfg"))
-    got = sorted(c[1][0] for c in res["info"] if c and c[0] == "DIV")
-    if got != want:
-        raise MachineryError("stepped memo validation: corrupted cache_info lines %s, machine diverged at %s" % (want, got))
+    if not divs:
+        for e in evs:
+            if e[0] == "new":
+                nobj += 1
+                if nobj > 12:
+                    break
+                k = 0
+            e2 = copy.deepcopy(e)
+            if e[0] == "call":
+                k += 1
+                if k == 3:
+                    e2[4][(nobj * 3) % 8][1] += 1
+                    want.append(len(ctl) + 1)
+            ctl.append(e2)
+        cpath = os.path.join(chk.dir, "traces", "MemoTrace_fidelity_control.ndjson")
+        with open(cpath, "w") as f:
+            for e in ctl:
+                f.write(json.dumps(e, separators=(",", ":")) + "\n")
+        res = _validate_shard((chk.dir, "MemoTrace", cpath, len(ctl), None, 600, "MemoTrace.cfg"))
+        got = sorted(c[1][0] for c in res["info"] if c and c[0] == "DIV")
+        if got != want:
+            raise MachineryError("stepped memo validation: corrupted cache_info lines %s, machine diverged at %s" % (want, got))
+    else:
+        got = []
     objects = sum(1 for e in evs if e[0] == "new")
     calls = sum(1 for e in evs if e[0] == "call")
     chk.extra["memo_machine"] = {
         "behaviours_from_tlc": len(behs), "objects": objects, "calls_validated_step_by_step": calls,
         "objects_whose_tables_follow_the_machine": objects - len(divs),
-        "stepped_validation_control": "%d corrupted cache_info lines, all %d located by the machine" % (len(want), len(got)),
+        "stepped_validation_control": ("%d corrupted cache_info lines, all %d located by the machine" % (len(want), len(got)))
+        if not divs else "skipped: the real tables no longer follow the machine (model drift)",
         "divergences": [{"line": d[1][0], "table": d[1][1], "machine": d[1][2], "observed": d[1][3]} for d in divs[:8]],
         "meaning": "a divergence is model drift (the call graph of the memoised methods changed), not a violation; "
                    "the C10 verdict of this leg is the answer comparison with a fresh twin at every step"}
